@@ -47,6 +47,10 @@ def run_reader_check(v, prop, tier, ops_of_interest, ev):
     runs, unreachable = edge_tours(edges, inits, max_len=200)
     if unreachable:
         raise ToolError("unreachable edges in FileReader export")
+    # histories: the same reader used for long, varied sequences of openings, partial reads, hashes and listings
+    walks = random_walks(edges, inits, 40 if tier == "quick" else 400, 150, seed() + 77)
+    ev["random_walks"] = dict(n=len(walks), steps=sum(len(s) for _, s in walks))
+    runs = runs + walks
     out_edges = {}
     for e in edges:
         out_edges.setdefault(canon(e["from"]), []).append(e)
